@@ -605,7 +605,14 @@ class Ovld:
     def resolve(self, *args):
         """Find the correct method to call for the given arguments."""
         self.ensure_compiled()
-        return self.map[tuple(map(subtler_type, args))]
+        return self.map[self._key_of(args)]
+
+    def _key_of(self, args):
+        # The same key as the entry point computes: a class passed as an
+        # argument is keyed as type[cls] only at the positions where some
+        # method has a type[...] annotation
+        lookup_for = self.argument_analysis.lookup_for
+        return tuple(lookup_for(i)(arg) for i, arg in enumerate(args))
 
     def register_signature(self, sig, orig_fn, occurrence=1):
         """Register a function for the given signature."""
@@ -726,7 +733,7 @@ class Ovld:
     def next(self, *args):
         """Call the next matching method after the caller, in terms of priority or specificity."""
         fr = sys._getframe(1)
-        key = (fr.f_code, *map(subtler_type, args))
+        key = (fr.f_code, *self._key_of(args))
         method = self.map[key]
         return method(*args)
 
